@@ -21,6 +21,7 @@ func runC15(a *A) {
 	a.Rule("shape/partition-local-seq", 1, func() { a.ruleCepSeqPerPartition() })
 	a.Rule("flow/accepting-run-not-lost", 2, func() { a.ruleCepAcceptingRunKept() })
 	a.Rule("shape/in-place-filter", 2, func() { a.ruleInPlaceFilter("cep") })
+	a.Rule("flow/leftmost-first", 1, func() { a.ruleLeftmostFirst() })
 	a.Rule("keyenc/cep-partition", 1, func() { a.keyencRule("stream", "cepRunner", "partitionKey", keyencOpts{}) })
 	a.Rule("locks/guarded-by", 9, func() {
 		a.lockRules("cep", "Engine")
@@ -380,4 +381,52 @@ func derefLoadBase(v ssa.Value) ssa.Value {
 		return fa.X
 	}
 	return v
+}
+
+// ruleLeftmostFirst: "starts are taken leftmost-first": a pending completion may be emitted only when
+// no run that started at or before it is still alive — emitting it moves nextStart forward and prunes
+// the earlier runs and their stored completions. emitGreedy has to compare the start it is about to
+// emit with the startSeq of the surviving runs by order (<, <=), not just test whether a run with the
+// same start exists; and the emission must be under the control of that comparison.
+func (a *A) ruleLeftmostFirst() {
+	fn := a.Method("cep", "Engine", "emitGreedy")
+	emitOne := a.Method("cep", "Engine", "emitOne")
+	run := a.Named("cep", "run")
+	startSeq := a.FieldOf(run, "startSeq")
+	construct := fname(fn) + "#leftmost-first"
+	var ordered *ssa.BinOp
+	allInstrs(fn, func(in ssa.Instruction) {
+		bo, ok := in.(*ssa.BinOp)
+		if !ok {
+			return
+		}
+		switch bo.Op {
+		case token.LSS, token.LEQ, token.GTR, token.GEQ:
+		default:
+			return
+		}
+		for _, v := range []ssa.Value{bo.X, bo.Y} {
+			if t := TermOf(v, nil); t.Kind == "field" && t.Field == startSeq {
+				ordered = bo
+			}
+		}
+	})
+	calls := callsTo(fn, emitOne)
+	if len(calls) == 0 {
+		a.Und(construct, fn.Pos(), "emitGreedy does not call emitOne")
+		return
+	}
+	if ordered == nil {
+		a.Bad(construct, calls[0].Pos(), "emitGreedy never compares the start it emits with the startSeq of the surviving runs by order: a later start is emitted while an earlier-start run is still alive, and the emission prunes the earlier, leftmost match")
+		return
+	}
+	// the comparison must be able to prevent the emission: some path from it avoids the emitOne call
+	ok := false
+	for _, c := range calls {
+		if !dominatesInstr(c, ordered) && ordered.Block() != c.Block() {
+			ok = true
+		}
+	}
+	a.Check(ok, construct, ordered.Pos(), "a pending start is emitted only after its order relative to the surviving runs' starts was tested",
+		"the ordered comparison with the survivors' starts does not control the emission")
 }
